@@ -10,6 +10,7 @@ import base64
 import copy
 import datetime
 import json
+import os
 
 from harness import core, scen, world as W
 
@@ -145,6 +146,70 @@ def one_case(rng, family, tier, res):
         scen.drop_root(root)
 
 
+def in_memory_case(rng, res):
+    """The layout as an object in the verifier's memory rather than a fresh load: wrapped and signed through in-toto and
+    then edited without re-wrapping (A), or loaded and its `get_payload()` object edited (B).  What is evaluated must be
+    exactly what the signatures cover: the outcome must be that of verifying what the object serialises to at that
+    moment (an envelope keeps its signed bytes: the edit has no effect; a traditional object no longer verifies)."""
+    from in_toto.models.layout import Layout
+    from in_toto.models.metadata import Metablock, Envelope, Metadata
+    from harness.props import c09
+    root = scen.new_root()
+    try:
+        ch = scen.gen_chain(rng, root, n_steps=rng.choice([1, 2]), n_insp=0, thresholds=(1,), max_funcs=1)
+        if any(k.kind == "gpg" for k in ch.owners):
+            return
+        signed_state = rng.choice(["expired", "fresh"])
+        exp = datetime.datetime(2030, 3, 1, 0, 0, 0, tzinfo=datetime.timezone.utc)
+        ch.expires = exp
+        scn = scen.build(ch, root, rng)
+        scn.now = exp + datetime.timedelta(days=(1 if signed_state == "expired" else -1))
+        scn.materialise(root)
+        seq = rng.choice(["A_wrap_then_edit", "B_load_then_edit"])
+        fmt = ch.layout_fmt
+        if seq.startswith("A"):
+            payload = scn.layout["signed"] if "signed" in scn.layout else json.loads(base64.b64decode(scn.layout["payload"]))
+            obj = Layout.read(json.loads(json.dumps(payload)))
+            md = Envelope.from_signable(obj) if fmt == "dsse" else Metablock(signed=obj)
+            for k in ch.owners:
+                md.create_signature(k.signer)
+        else:
+            md = Metadata.load(os.path.join(root, "root.layout"))
+            obj = md.get_payload()
+        edit = rng.choice(["expires", "expires", "pubkeys", "none"])
+        if edit == "expires":
+            obj.expires = "2031-01-01T00:00:00Z" if signed_state == "expired" else "2029-01-01T00:00:00Z"
+        elif edit == "pubkeys":
+            stranger = [k for k in W.pool() if k not in ch.owners][0]
+            for st in obj.steps:
+                st.pubkeys = [stranger.keyid]
+            obj.keys = {stranger.keyid: stranger.pub}
+        content = json.loads(json.dumps(md.to_dict()))
+        scn.layout = content
+        t, _msg = c09.table_from_file(content, ch.owners)
+        scn.table.rows += t.rows
+        desc = {"family": "in_memory", "sequence": seq, "layout_fmt": fmt, "signed_content": signed_state, "edit_of_object": edit}
+        scn.meta["layout_object"] = md
+        i, m, agreed = scen.run_both(scn)
+        scn.meta.pop("layout_object")
+        fresh = scn.run_impl(root=root)          # a fresh load of what the object serialised to
+        res.case({"desc": desc, "impl": short(i), "model": short(m), "fresh_copy": short(fresh)}, edit != "none", agreed)
+        res.count("family_in_memory"); res.count("in_memory_" + short(i).get("result", "load_error"))
+        if not agreed:
+            res.fail("disagree", replayable(scn, desc), {"op": "verify", "impl": short(i), "model": short(m)})
+        if short(i) != short(fresh):
+            res.fail("oracle", replayable(scn, desc),
+                     {"why": "verification of the object in memory gives another outcome than verification of what that object "
+                             "serialises to: the content evaluated is not the content the signatures cover",
+                      "in_memory": short(i), "fresh_copy": short(fresh)})
+        accepted = i.get("load") == "ok" and "ok" in i["result"]
+        if accepted and signed_state == "expired" and fmt == "dsse":
+            res.fail("oracle", replayable(scn, desc),
+                     {"why": "accepted although the signed payload of the envelope has expired", "impl": short(i)})
+    finally:
+        scen.drop_root(root)
+
+
 def short(o):
     if o.get("load") != "ok":
         return {"load": o.get("load")}
@@ -168,6 +233,8 @@ def shard(seed, idx, n, tier):
     for j in range(n):
         fam = FAMILIES[(idx + j) % len(FAMILIES)]
         one_case(rng, fam, tier, res)
+    for _ in range(max(2, n // 4)):
+        in_memory_case(rng, res)
     return res
 
 
